@@ -509,6 +509,7 @@ func runSSHPart(o hx.Opts, r *hx.Rand, e *env, replay *Input) {
 	}
 	dist := map[string]int{}
 	var cases []hx.Case
+	decoy0 := e.decoy.count()
 	for i, in := range ins {
 		ob, crash := e.runSSH(in, i)
 		dist[fmt.Sprintf("passwords:%d", len(in.Passwords))]++
@@ -522,6 +523,9 @@ func runSSHPart(o hx.Opts, r *hx.Rand, e *env, replay *Input) {
 		dist["reply:"+sizeClass(len(concatB(in.Reply)))]++
 		inp := in
 		cases = append(cases, hx.Case{ID: i, Kind: "ssh", Input: Input{Part: "ssh", SSH: &inp}, Obs: ob, Crash: crash, Coq: coqSSHCase(i, in, ob)})
+	}
+	if n := e.decoy.count() - decoy0; n > 0 && len(cases) > 0 && cases[len(cases)-1].Crash == "" {
+		cases[len(cases)-1].Crash = fmt.Sprintf("the decoy listener was contacted %d time(s) during the ssh part", n)
 	}
 	hx.Write(o, "C15", "ssh", coqHeader+"Import SshCheck.\n", "case", cases, dist, nil, 8)
 }
